@@ -688,7 +688,7 @@ void annotate(Model &m, Program &p) {
     m.strict_iget_overlap = (p.cfg.flags & 1) != 0;
     { auto sm = p.cfg.sim.env.find("PNETCDF_SAFE_MODE"); m.safe_mode = (sm != p.cfg.sim.env.end() && sm->second != "0"); }
     { auto h = p.cfg.sim.env.find("PNETCDF_HINTS"); m.aggr_env = (h != p.cfg.sim.env.end() && h->second.find("nc_num_aggrs_per_node") != std::string::npos); }
-    for (auto &f : p.preload) { MFile mf; if (model_from_image(f.second, f.first, mf)) m.disk[f.first] = mf; }
+    if (p.cfg.profile != "C19") for (auto &f : p.preload) { MFile mf; if (model_from_image(f.second, f.first, mf)) m.disk[f.first] = mf; }   // (C19 feeds damaged files: no model)
     m.cur_ops = &p.ops;
     for (auto &op : p.ops) model_step(m, op);
     m.cur_ops = nullptr;
